@@ -128,6 +128,11 @@ def paths_under(ff: FuncFacts, val: Dict[str, bool], start: Optional[Node] = Non
                     v[t] = bool(val_.elts)
                 elif isinstance(val_, ast.Dict) and all(k_ is not None for k_ in val_.keys):
                     v[t] = bool(val_.keys)
+                # a local that takes the value of something whose None-ness is part of the valuation inherits it (``loader = ctx.loader`` ; ``if loader is None``)
+                if isinstance(a.targets[0], ast.Name) and not isinstance(a.value, ast.Constant):
+                    src_k = f'{ff.canon.key(a.value)} is None'
+                    if src_k in v and src_k != f'{t} is None':
+                        v[f'{t} is None'] = v[src_k]
                 if isinstance(a.value, ast.Constant) and a.value.value is None:
                     v[f'{t} is None'] = True
                     if isinstance(a.targets[0], ast.Name):
@@ -267,6 +272,15 @@ def dispatch_table(ff: FuncFacts, subject: str, consts: Dict[str, object], site:
                         if isinstance(rv, ast.Await):
                             rv = rv.value
                         returned = norm(rv) == norm(value_on_path(path, i, c))
+                        # ``outcome = await call(...)`` ... ``return outcome`` (an awaited value is not followed by value_on_path): the local bound at the call site,
+                        # not re-bound on the way, is what is returned
+                        a_ = path[i].ast
+                        if not returned and path[i].kind == 'stmt' and isinstance(a_, (ast.Assign, ast.AnnAssign)) and a_.value is not None:
+                            tg_ = a_.targets[0] if isinstance(a_, ast.Assign) and len(a_.targets) == 1 else (a_.target if isinstance(a_, ast.AnnAssign) else None)
+                            av_ = a_.value.value if isinstance(a_.value, ast.Await) else a_.value
+                            if isinstance(tg_, ast.Name) and av_ is c and isinstance(m_.ast.value, ast.Name) and m_.ast.value.id == tg_.id \
+                                    and not any(tg_.id in _assigned(x_) for x_ in path[i + 1:j]):
+                                returned = True
                 res.append(('call', callee, tuple(args_), tuple(sorted(kws_.items())), path[i], c, returned))
             else:
                 rets = [m_ for m_ in path if m_.kind == 'return']
